@@ -13,6 +13,7 @@ import (
 	"path/filepath"
 	"sort"
 	"strings"
+	"sync"
 	"time"
 
 	"github.com/klev-dev/klevdb"
@@ -32,6 +33,8 @@ type HConfig struct {
 	DirStyle int `json:"dir_style,omitempty"`
 	// WallClock: every message is published with the zero time, i.e. stamped by the log (monotone wall clock)
 	WallClock bool `json:"wall_clock,omitempty"`
+	// SubMicro: message times carry nanoseconds below the microsecond and a non-UTC location (same microsecond time)
+	SubMicro bool `json:"sub_micro,omitempty"`
 }
 
 type OpenOpts struct {
@@ -76,6 +79,18 @@ type Op struct {
 	Handles int       `json:"handles,omitempty"`
 	Fresh   bool      `json:"fresh,omitempty"`
 	ToV1    bool      `json:"to_v1,omitempty"`
+	// Oversize (publish): 1-based position of a message in the batch whose value is replaced by one byte more than a
+	// record can hold; the Publish must fail and leave a log that is still a log
+	Oversize int `json:"oversize,omitempty"`
+}
+
+var hugeOnce sync.Once
+var hugeVal []byte
+
+// hugeValue is one byte longer than the largest record body (never touched, so it costs address space only).
+func hugeValue() []byte {
+	hugeOnce.Do(func() { hugeVal = make([]byte, 64*1024*1024+1) })
+	return hugeVal
 }
 
 func (o Op) String() string {
@@ -164,14 +179,14 @@ type Env struct {
 	T0   int64 // base for relative times (unix µs), 0 unless Cfg.RelTime
 
 	startOpts OpenOpts
-	bkDir   string // reusable backup directory ("" = none)
-	bkOld   []oldBackup
-	bkSeq   int
-	flags   map[string]bool
-	closed  bool
-	segsMax int
-	liveMax int
-	Trace   []Op
+	bkDir     string // reusable backup directory ("" = none)
+	bkOld     []oldBackup
+	bkSeq     int
+	flags     map[string]bool
+	closed    bool
+	segsMax   int
+	liveMax   int
+	Trace     []Op
 }
 
 func (e *Env) own(tag string) bool { return e.P.Own[tag] }
@@ -330,12 +345,49 @@ func (e *Env) noteLayout() {
 	}
 }
 
+// applyRejectedPublish publishes a batch that contains a message no record can hold. The call must fail. The
+// properties do not say that a failed batch is all-or-nothing, so a prefix of the batch (the messages before the
+// offending one) may have become part of the log - but then as ordinary messages: NextOffset says how many, and
+// every later observation holds the log to the model extended by exactly those.
+func (e *Env) applyRejectedPublish(op Op, msgs []klevdb.Message) {
+	j := op.Oversize - 1
+	msgs[j].Value = hugeValue()
+	e.flag("rejected-publish")
+	if j > 0 {
+		e.flag("rejected-publish-mid-batch")
+	}
+	e.St.Inc("publish_rejected_oversize")
+	_, err := e.L.Publish(msgs)
+	if err == nil {
+		e.failf("err", "Publish accepted a message of %d bytes (at position %d of %d)", len(msgs[j].Value)+len(msgs[j].Key), j, len(msgs))
+	}
+	n, nerr := e.L.NextOffset()
+	e.must("NextOffset", nerr)
+	base := e.M.Next
+	if n < base || n > base+int64(j) {
+		e.failf("err", "after a rejected Publish (offending message at position %d) NextOffset is %d, was %d", j, n, base)
+	}
+	for i := 0; int64(i) < n-base; i++ {
+		e.M.Append(Msg{Off: base + int64(i), TS: msgs[i].Time.UnixMicro(), K: append([]byte(nil), op.Msgs[i].K...), V: append([]byte(nil), op.Msgs[i].V...)})
+		e.St.Inc("publish_rejected_prefix_kept")
+	}
+}
+
 func (e *Env) applyPublish(op Op) {
 	msgs := make([]klevdb.Message, len(op.Msgs))
 	for i, in := range op.Msgs {
 		m := klevdb.Message{Offset: in.Bogus, Key: []byte(in.K), Value: []byte(in.V)}
 		if !in.ZeroTime {
 			m.Time = time.UnixMicro(e.absTS(in.TS))
+			if e.Cfg.SubMicro {
+				// same microsecond, other spelling: nanoseconds below the microsecond and a non-UTC location
+				ns := (in.TS*37 + int64(i)*11) % 1000
+				if ns < 0 {
+					ns = -ns
+				}
+				m.Time = m.Time.Add(time.Duration(ns) * time.Nanosecond).In(time.FixedZone("x", int((in.TS%27-13)*1800)))
+				e.St.Inc("messages_with_sub_microsecond_time")
+			}
 		}
 		msgs[i] = m
 	}
@@ -347,6 +399,10 @@ func (e *Env) applyPublish(op Op) {
 	if e.own("size") {
 		sizeBefore = dirDataSize(e.Dir)
 		before, _ = listLogs(e.Dir)
+	}
+	if op.Oversize > 0 {
+		e.applyRejectedPublish(op, msgs)
+		return
 	}
 	n, err := e.L.Publish(msgs)
 	e.must("Publish", err)
